@@ -129,7 +129,7 @@ func c08Observe(b *hx.Built, c c08Call, order int, kb *ast.KnowledgeBase) string
 }
 
 func C08(rep *ev.Reporter, tier string) {
-	bud := NewBudget(50 * time.Second)
+	bud := NewBudget(150 * time.Second)
 	maxLen := 3
 	if tier == "thorough" {
 		bud = NewBudget(9 * time.Minute)
